@@ -57,6 +57,24 @@ Round 4 additions:
     of the leaf tasks only -> REFUTED (dependencies declared on summaries are ignored); other bypasses stay UNDECIDED (C12.pure),
     except the empty result for a WBS without tasks.
 
+Round 5 additions:
+  * the dependency links may be made by the insert itself after the arc builder returned the task's arc (`work =
+    self.__add_work(id, units)` ... `for pid in p_ids: connect(self.<links>[pid].end, work.start, 0)`, usually a spliced
+    __add_dependencies helper): _dep_site finds the hosting function, `work.start` is the arc's start when the builder returns the
+    link it registered; "no dependency arcs" is refuted only when neither the builder nor the insert creates further links;
+  * the connect helper may be a method of the node class (`start.connect_to(end, units)`, receiver bound to the start role);
+    with several methods called by the insert the arc builder is the one that creates network objects;
+  * folds written as `vals = [..]; for ..: vals.append(T); x = max(vals)` / `min(vals) if len(vals) > 0 else D` / `D if not vals
+    else min(vals)`; terminal nodes wired in one pass over self.<nodes> with the emptiness tests inside the loop;
+  * RelEval: a reassigned task parameter (`while parent is not None: ..; parent = parent.parent`) climbs the ancestors; the
+    exit test of a while loop that lies behind is not a path condition;
+  * C12.inherit: a list that comes out of the calculator's own state (returned by a helper that keeps it, or read from a
+    self.<table>) and is extended in place for one task leaks into the next tasks -> REFUTED (UNDECIDED under a test of that
+    list: a cache fill);
+  * C12.leaf-arcs: an end date handed to the calculator that is not None (`self.end`) -> REFUTED when the constructor visibly
+    filters the inserted tasks by that date; a name / conditional value stays UNDECIDED.
+  Not followed (UNDECIDED): memo tables (`self.<cache>[key]`) as the source of the predecessor list even when used correctly.
+
 Not decided: exactness of the longest-path result as a number (magnitude of the tolerance - a constant above 1e-3 is
 reported UNDECIDED -, float rounding inside the folds), "never empty when the WBS has a leaf" (follows from the clauses,
 not checked on its own), acyclicity handling (the property quantifies over acyclic WBSs), the end_date != None mode
@@ -114,7 +132,14 @@ class Roles:
             raise AnalysisError(f"{self.init.qual} does not call exactly one insert method")
         self.insert = next(iter(ins.values()))
         others = {t.qual: t for _, t in self.self_calls(self.insert) if t is not self.insert}
-        adders = [t for t in others.values() if t.kind == 'method']
+        adders = [t for t in others.values() if t.kind == 'method' and t.cls == self.cls]
+        if len(adders) > 1:
+            # the arc builder is the one that creates network objects (directly or through the helpers it calls)
+            def builds(t, depth=0):
+                if any(c.kind == 'ctor' and c.targets and c.targets[0].module is self.mod for c in cg.calls_in(t)):
+                    return True
+                return depth < 2 and any(builds(t2, depth + 1) for _, t2 in self.self_calls(t) if t2 is not t)
+            adders = [t for t in adders if builds(t)]
         if len(adders) != 1:
             raise AnalysisError(f"{self.insert.qual}: cannot identify the arc builder (methods called: {sorted(others)})")
         self.add = adders[0]
@@ -150,8 +175,10 @@ class Roles:
         for ci in self.ctx.cg.calls_in(f):
             if ci.kind == 'call' and isinstance(ci.node, ast.Call):
                 for t in ci.targets:
-                    # methods of the calculator, and private helpers that were moved to module level
-                    if t is not None and t.module is self.mod and (t.cls == self.cls or (t.cls is None and t.kind == 'function')):
+                    # methods of the calculator, private helpers that were moved to module level, methods of the other classes
+                    # of the module (`start.connect_to(end, units)` on the node class)
+                    if t is not None and t.module is self.mod and (t.cls == self.cls or (t.cls is None and t.kind == 'function')
+                                                                   or (t.cls is not None and t.kind == 'method' and ci.resolved)):
                         out.append((ci.node, t))
         return out
 
@@ -232,6 +259,29 @@ def _param_loops(ctx, f: Func) -> List[Tuple[ast.For, str]]:
         if isinstance(it, ast.Name) and it.id in f.params and it.id != f.self_name:
             out.append((n, it.id))
     return out
+
+
+def _dep_site(ctx, R: 'Roles', model) -> Optional[dict]:
+    """where the zero-length dependency links are made: dict(host, loop, pred_param)
+    host = the arc builder (loop over its predecessor parameter) or the insert itself (`work = self.__add_work(id, units)`
+    followed by a loop `for pid in p_ids: connect(self.<links>[pid].end, work.start, 0)`, pred_param None)"""
+    if 'dep_site' in model:
+        return model['dep_site']
+    site = None
+    loops = _param_loops(ctx, R.add)
+    if loops:
+        site = dict(host=R.add, loop=loops[-1][0], pred_param=loops[-1][1])
+    else:
+        cfg = cfg_of(R.insert)
+        found = []
+        for c in R.calls_to(R.insert, R.connect):
+            fors = cfg.enclosing_fors(cfg.node_containing(c))
+            if fors and not any(fors[-1] is f_ for f_ in found):
+                found.append(fors[-1])
+        if len(found) == 1:
+            site = dict(host=R.insert, loop=found[0], pred_param=None)
+    model['dep_site'] = site
+    return site
 
 
 def _unpacked(fl, name: ast.Name, at) -> Optional[ast.AST]:
@@ -425,6 +475,8 @@ def check(ctx):
     guarded(o_inh, lambda o: _inherit_registered(ctx, R, model, o_inh, o_reg))
     if not o_inh.error:
         guarded(o_inh, lambda o: _entry_shortcuts(ctx, R, o))
+    if not o_inh.error:
+        guarded(o_inh, lambda o: _shared_list_leak(ctx, R, model, o))
     if o_inh.error and not o_reg.error:
         o_reg.fail(o_inh.error)
 
@@ -472,9 +524,10 @@ def _discover(ctx, R: Roles, model):
             b = bind_args(c, con)
             model.setdefault('arc_start', b.get(via.get('start')))
             model.setdefault('arc_end', b.get(via.get('end')))
-    for n, pp_ in _param_loops(ctx, add):
-        model.setdefault('dep_loop', n)
-        model.setdefault('pred_param', pp_)
+    ds_ = _dep_site(ctx, R, model)
+    if ds_ is not None:
+        model.setdefault('dep_loop', ds_['loop'])
+        model.setdefault('pred_param', ds_['pred_param'])
     calls = R.calls_to(ins, add)
     if len(calls) == 1:
         model['add_call'] = calls[0]
@@ -803,7 +856,32 @@ def _leaf_arcs(ctx, R: Roles, model, o):
             o.undecided(R.entry, R.ctor_call, verdict[2], f"the calculator is given a selection of {self_e}.tasks under a condition "
                                                           f"the rule cannot judge: {src(verdict[2])[:80]}")
     if not model['end_none']:
-        o.undecided(R.entry, R.ctor_call, R.ctor_call, "end_date argument is not None: the date-filtered mode is not modelled")
+        # a value for the end date switches the calculator to its date-filtered mode; is that visible in the constructor?
+        gate = None
+        ev_ = exe.expand(earg) if earg is not None else None
+        provably_value = ev_ is not None and not (isinstance(ev_, ast.Constant) and ev_.value is None) and \
+            not isinstance(ev_, (ast.IfExp, ast.BoolOp, ast.Name))
+        for c in R.calls_to(init, ins):
+            fors_ = icfg.enclosing_fors(icfg.node_containing(c))
+            lv0 = fors_[-1].target.id if fors_ and isinstance(fors_[-1].target, ast.Name) else None
+            atoms_ = []
+            for t, p in facts.node_conditions(prog, init, c, ctx.typer, expand=False):
+                atoms_ += facts.split_conj(t, p)
+            if lv0 is None or not any((lambda nt: nt and isinstance(nt[0], ast.Name) and nt[0].id == end_p and not nt[1])(none_test(t, p))
+                                      for t, p in atoms_):
+                continue
+            for t, p in atoms_:
+                names_ = {x.id for x in ast.walk(t) if isinstance(x, ast.Name)}
+                if lv0 in names_ and end_p in names_ and any(isinstance(x, ast.Attribute) and isinstance(x.value, ast.Name)
+                                                               and x.value.id == lv0 for x in ast.walk(t)):
+                    gate = (c, t, p)
+        if gate is not None and provably_value:
+            o.refute(R.entry, R.ctor_call, earg,
+                     f"WBS.critical_path hands `{src(earg)}` to the calculator as end date: with an end date the constructor inserts "
+                     f"only the tasks with `{'' if gate[2] else 'not '}{src(gate[1])[:60]}` (and what they depend on) and calc keeps only "
+                     f"the chains that end at that date - the property is the critical path of the whole network (end date None)")
+        else:
+            o.undecided(R.entry, R.ctor_call, R.ctor_call, "end_date argument is not None: the date-filtered mode is not modelled")
     hit = False
     filtered = []           # (call, test) insert calls that are live with end_date None but skip tasks by a test of the task
     unclear = []            # (call, why)
@@ -1184,20 +1262,23 @@ def _inherit_registered(ctx, R: Roles, model, o_inh, o_reg):
     an = cfg.node_containing(call)
     # the predecessor parameter of the arc builder = the one it iterates to add dependency arcs
     acfg = cfg_of(add)
-    pred_param = None
-    for n, pp_ in _param_loops(ctx, add):
-        pred_param = pp_
-        model['dep_loop'] = n
-    if pred_param is None:
+    site = _dep_site(ctx, R, model)
+    if site is None:
         o_inh.undecided(add, add.node, add.name, "the arc builder does not iterate one of its parameters to add dependency arcs")
         o_reg.undecided(add, add.node, add.name, "the arc builder does not iterate one of its parameters to add dependency arcs")
         return
-    model['pred_param'] = pred_param
-    ids_arg = bind_args(call, add).get(pred_param)
+    dep_host = site['host']
+    model['dep_loop'] = site['loop']
+    model['pred_param'] = pred_param = site['pred_param']
     ev = _releval(ctx, R, model)
     cache = model['leaf_cache']
+    if dep_host is add:
+        ids_arg, ids_at = bind_args(call, add).get(pred_param), an
+    else:
+        # the insert links the predecessors itself, after the arc builder returned the task's arc
+        ids_arg, ids_at = site['loop'].iter, cfg.node_of(site['loop'])
     try:
-        ids = U.normalise(ev.contribution(an, ids_arg, an))
+        ids = U.normalise(ev.contribution(ids_at, ids_arg, an))
     except Unknown as e:
         for o in (o_inh, o_reg):
             o.undecided(ins, e.node if hasattr(e.node, 'lineno') else call, e.node if isinstance(e.node, ast.AST) else call,
@@ -1398,9 +1479,11 @@ def _inherit_registered(ctx, R: Roles, model, o_inh, o_reg):
         good = [n for n in lookups if isinstance(n.slice, ast.Name) and isinstance(loop.target, ast.Name)
                 and n.slice.id == loop.target.id]
         if not good:
-            o.undecided(add, loop, loop, "dependency loop does not look the predecessor up in the arc table by its id")
-        elif not _before(acfg, acfg.node_of(st), acfg.node_of(loop)):
+            o.undecided(dep_host, loop, loop, "dependency loop does not look the predecessor up in the arc table by its id")
+        elif dep_host is add and not _before(acfg, acfg.node_of(st), acfg.node_of(loop)):
             o.refute(add, st, st, "the task's own arc is registered after (or inside) the dependency loop")
+        elif dep_host is not add and not _before(cfg, an, cfg.node_of(loop)):
+            o.refute(ins, call, call, "the task's own arc is registered (by the arc builder) after or inside the dependency loop")
         else:
             o.site(add, st, f"arc table self.{unmangle(links_attr)} written unconditionally before the lookups `{src(good[0])}`")
     ka = model.get('key_attr')
@@ -1490,6 +1573,110 @@ def _member_test(t: ast.AST, pol: bool, var: Optional[str] = None):
     if not m or not isinstance(m['x'], ast.Name) or (var is not None and m['x'].id != var):
         return None
     return m['x'].id, m['tab'], m['k'], member
+
+
+def _shared_list_leak(ctx, R: Roles, model, o):
+    """`preds = self.__cached(task.parent)` followed by `preds += ..` / `preds.append(..)`: when the helper hands out a list it
+    keeps in the calculator (a per-parent cache), the in-place extension lands in the cache and the next task that gets the same
+    list inherits predecessors that are not its own"""
+    prog, ins = ctx.prog, R.insert
+    cfg, fl = cfg_of(ins), flow_of(ins)
+
+    def stored_return(h: Func):
+        """a return of h whose value is (an element of) a container held by the calculator, not a copy"""
+        exh = Expander(prog, h, ctx.typer, inline=False)
+        hcfg = cfg_of(h)
+        for r in [n for n in walk_no_nested(h.node) if isinstance(n, ast.Return) and n.value is not None]:
+            rn = hcfg.node_of(r)
+            if rn is None or not hcfg.is_reachable(rn):
+                continue
+            v = r.value
+            if isinstance(v, ast.Name):
+                d = fl_h.unique_def(v.id, rn)
+                if d is not None and d.kind == 'assign' and d.value is not None:
+                    v = d.value
+            for _ in range(2):
+                m = match("$x.get($*a)", v) or match("$x.setdefault($*a)", v)
+                if m:
+                    v = m['x']
+                elif isinstance(v, ast.Subscript):
+                    v = v.value
+            if isinstance(v, ast.Attribute) and isinstance(v.value, ast.Name) and v.value.id == h.self_name:
+                return r
+        return None
+
+    def self_load(v: ast.AST) -> bool:
+        """v reads (an element of) a container the calculator keeps: self.X[..], self.X.get(..), self.X.setdefault(..), self.X"""
+        for _ in range(2):
+            m = match("$x.get($*a)", v) or match("$x.setdefault($*a)", v)
+            if m:
+                v = m['x']
+            elif isinstance(v, ast.Subscript):
+                v = v.value
+        return isinstance(v, ast.Attribute) and isinstance(v.value, ast.Name) and v.value.id == ins.self_name
+
+    def origin(name: str, at, depth=0):
+        """('helper', h, return) | ('load', expr, None) when some definition of `name` reaching `at` is a list the calculator keeps"""
+        if depth > 4 or at is None:
+            return None
+        for d in fl.reaching(name, at):
+            if d.kind != 'assign' or d.value is None or d.node is None:
+                continue
+            v = d.value
+            if isinstance(v, ast.Name) and v.id != name:
+                got = origin(v.id, d.node, depth + 1)
+                if got:
+                    return got
+            elif isinstance(v, ast.Call):
+                targets = [t for c, t in R.self_calls(ins) if c is v and t.cls == R.cls and t.kind == 'method' and t is not ins]
+                if len(targets) == 1:
+                    nonlocal fl_h
+                    fl_h = flow_of(targets[0])
+                    sr = stored_return(targets[0])
+                    if sr is not None:
+                        return 'helper', targets[0], sr
+                if self_load(v):
+                    return 'load', v, None
+            elif self_load(v) and isinstance(v, ast.Subscript):
+                return 'load', v, None
+        return None
+
+    fl_h = None
+    for n in walk_no_nested(ins.node):
+        mut = None
+        if isinstance(n, ast.AugAssign) and isinstance(n.target, ast.Name) and isinstance(n.op, ast.Add):
+            mut, mn, nm = n, cfg.node_of(n), n.target.id
+        elif isinstance(n, ast.Call) and isinstance(n.func, ast.Attribute) and isinstance(n.func.value, ast.Name) and \
+                n.func.attr in ('append', 'extend', 'insert'):
+            mut, mn, nm = n, cfg.node_containing(n), n.func.value.id
+        if mut is None or mn is None or not cfg.is_reachable(mn):
+            continue
+        got = origin(nm, mn)
+        if not got:
+            continue
+        # `lst = self.<cache>.setdefault(key, []); if not lst: <fill lst>`: filling a fresh entry is what a cache does
+        fill_guard = False
+        for t, p in cfg.conditions(mn):
+            for a_, ap_ in facts.split_conj(t, p):
+                et, nt = empty_test(a_, ap_), none_test(a_, ap_)
+                if (et and isinstance(et[0], ast.Name) and et[0].id == nm) or (nt and isinstance(nt[0], ast.Name) and nt[0].id == nm) \
+                        or (isinstance(a_, ast.Name) and a_.id == nm):
+                    fill_guard = True
+        if fill_guard:
+            o.undecided(ins, mut, mut, f"`{src(mut)[:60]}` extends a list kept in the calculator under a test of that list: cannot tell "
+                                       f"a cache fill from a leak between tasks")
+            return
+        if got[0] == 'helper':
+            h, sr = got[1], got[2]
+            o.refute(ins, mut, mut, f"`{src(mut)[:60]}` extends in place the list that {h.name} returned; {h.name} hands out a list it "
+                                    f"keeps in the calculator (`{src(sr)[:60]}`), so what is added for this task stays in the kept list "
+                                    f"and is inherited by every later task that gets the same list (siblings take over each other's "
+                                    f"own predecessors)")
+        else:
+            o.refute(ins, mut, mut, f"`{src(mut)[:60]}` extends in place a list read from the calculator's own state "
+                                    f"(`{src(got[1])[:60]}`): what is added for this task stays in the kept list and is inherited by "
+                                    f"every later task that reads the same entry")
+        return
 
 
 def _entry_shortcuts(ctx, R: Roles, o):
@@ -1612,19 +1799,41 @@ def _passes(ctx, R: Roles, model, o, o_eq):
         OUT, IN = 'forward_links', 'backward_links'     # the readers' convention; the remaining clauses are still checked
 
     # ---- dependency arcs: pred.end -> start, 0 units
-    loop = model.get('dep_loop')
-    if loop is None:
-        for n, _pp in _param_loops(ctx, add):
-            loop = n
+    site = _dep_site(ctx, R, model)
+    loop = site['loop'] if site else None
+    dep_host = site['host'] if site else add
+    real_add = add
     links_attr = model.get('links_attr')
+    arc_start = model.get('arc_start')
+    is_start = (lambda e_, at_: (same(e_, arc_start) if arc_start is not None else None))
+    if dep_host is not add:
+        # `work = self.__add_work(id, units)` ... `connect(self.<links>[pid].end, work.start, 0)`: the arc builder must return
+        # the arc it registered; its `.start` is then the start node of the task's arc
+        exadd = Expander(prog, real_add, ctx.typer, inline=False)
+        st_arc = model.get('arc_store')
+        rets_ = [r_ for r_ in walk_no_nested(real_add.node) if isinstance(r_, ast.Return)]
+        returns_arc = bool(rets_) and st_arc is not None and all(
+            r_.value is not None and same(exadd.expand(r_.value, cfg_of(real_add).node_of(r_)),
+                                          exadd.expand(st_arc.value, cfg_of(real_add).node_of(st_arc))) for r_ in rets_)
+        exh_ = Expander(prog, dep_host, ctx.typer, inline=False)
+
+        def is_start(e_, at_):          # noqa: F811
+            x_ = exh_.expand(e_, at_)
+            m_ = match("$w.$f", x_)
+            if not m_ or not isinstance(m_['w'], ast.Call) or not returns_arc:
+                return None
+            if not any(c_ is m_['w'] or same(c_.func, m_['w'].func) for c_ in R.calls_to(dep_host, real_add)):
+                return None
+            return m_['f'] == 'start'
+        add = dep_host                  # the statements below talk about the function that hosts the dependency loop
     exa = Expander(prog, add, ctx.typer, inline=False)
     acfg = cfg_of(add)
     dep_calls = [c for c in R.calls_to(add, con) if loop is not None and any(c is x for x in ast.walk(loop))]
-    arc_start = model.get('arc_start')
-    if loop is None or not dep_calls or arc_start is None:
-        # closed world: besides the arc's own link the builder creates no link and calls nothing that could
-        n_links = len(R.calls_to(add, con))
-        foreign = [t for _, t in R.self_calls(add) if t is not con and t is not R.new_node]
+    if loop is None or not dep_calls or (arc_start is None and dep_host is real_add):
+        # closed world: besides the arc's own link neither the builder nor the insert creates a link or calls anything that could
+        n_links = len(R.calls_to(real_add, con)) + len(R.calls_to(R.insert, con))
+        foreign = [t for _, t in R.self_calls(real_add) if t is not con and t is not R.new_node] + \
+                  [t for _, t in R.self_calls(R.insert) if t not in (R.insert, real_add, con) and R.calls_to(t, con)]
         if n_links <= 1 and not foreign and arc_start is not None:
             o.refute(add, add.node, 'dependency arcs', "the arc builder adds no link between a predecessor's arc and the task's arc")
         else:
@@ -1660,12 +1869,13 @@ def _passes(ctx, R: Roles, model, o, o_eq):
                                         f"{'' if p_ else 'not '}{src(t_)[:70]}")
         if skipped:
             continue
-        if m and m['side'] == 'end' and e is not None and arc_start is not None and same(e, arc_start) and uc == 0:
+        into_start = is_start(e, acfg.node_containing(c)) if e is not None else None
+        if m and m['side'] == 'end' and into_start and uc == 0:
             o.site(add, c, f"dependency arc {src(s)} -> {src(e)} with 0 units")
         elif m and m['side'] == 'start':
             o.refute(add, c, c, "dependency arc leaves the START node of the predecessor's arc: the successor may begin before "
                                 "the predecessor's work is done")
-        elif m and e is not None and arc_start is not None and not same(e, arc_start):
+        elif m and e is not None and into_start is False:
             o.refute(add, c, c, f"dependency arc enters `{src(e)}` instead of the start node of the task's arc")
         elif s is not None and e is not None and match(f"self.{links_attr}[{lv}].$side", exa.expand(e, acfg.node_containing(c))):
             o.refute(add, c, c, "dependency arc points from the task to its predecessor (direction reversed)")
@@ -1734,6 +1944,19 @@ def _passes(ctx, R: Roles, model, o, o_eq):
             if et and et[1] and isinstance(et[0], ast.Attribute) and isinstance(et[0].value, ast.Name) and \
                     et[0].value.id == parts[1].id:
                 flt = et[0].attr
+        elif match(f"self.{nodes_attr}", it) or match(f"list(self.{nodes_attr})", it):
+            # one pass over all nodes, the emptiness test as a condition inside the loop:
+            # `for n in self.<nodes>: if len(n.<incoming>) == 0: connect(begin, n, 0)`
+            hdr_ = ccfg2.node_of(fors[-1])
+            inner_ = []
+            for t_, p_ in ccfg2.conditions(n):
+                tn_ = ccfg2.node_containing(t_)
+                if tn_ is not None and hdr_ is not None and ccfg2.dominates(hdr_, tn_) and tn_ is not hdr_:
+                    inner_ += facts.split_conj(exk.expand(t_, tn_, stop={lv}), p_)
+            if len(inner_) == 1:
+                et = empty_test(inner_[0][0], inner_[0][1])
+                if et and et[1] and isinstance(et[0], ast.Attribute) and isinstance(et[0].value, ast.Name) and et[0].value.id == lv:
+                    flt = et[0].attr
         uc = facts.const_num(u) if u is not None else None
         if isinstance(s, ast.Name) and s.id == lv and fresh_node(e):
             # node -> sink
